@@ -26,6 +26,9 @@ def big_scope_program(n=300):
     return 'function big(p) { var %s; try { p(); } catch (err) { return %s; } }' % (', '.join(names), ' + '.join(names[:5] + names[-5:]))
 
 
+OTHER = {'minobf': 'minobfglobals', 'minobfglobals': 'minobf', 'obfindent': 'minobf'}
+
+
 def mk(cfg):
     from calmjs.parse.unparsers import es5 as u
     from calmjs.parse import rules
@@ -80,7 +83,7 @@ def h_history(cfg, xi, ai, mode, depth=1):
         trees = [parse(t) for t in _TL['texts']]
         snaps = [snapshot(t) for t in trees]
         P = mk(cfg)
-        for step in range(depth):
+        for step in range(depth if mode != 'interleave' else 0):
             X = trees[(xi + step) % len(trees)]
             if mode == 'abandon':
                 k = SIntZ(z3.Int('k%d' % step))
@@ -108,6 +111,26 @@ def h_history(cfg, xi, ai, mode, depth=1):
                 except Exception:
                     pass
         A = trees[ai]
+        if mode == 'interleave':
+            # P's generator over A is suspended after a SYMBOLIC number of fragments, another printer object (a differently
+            # configured obfuscating one) prints the same tree and another tree in full, then P's generator is resumed
+            exp = frs(mk(cfg), A)
+            Q = mk(OTHER.get(cfg, 'minobf'))
+            k = SIntZ(z3.Int('k0'))
+            E.solver.add(k.e >= 0, k.e <= len(exp))
+            got, done = [], False
+            for f in P(A):
+                if not done and k == len(got):
+                    done = True
+                    frs(Q, A)
+                    frs(Q, trees[xi])
+                got.append(tuple(f))
+                if len(got) > 4000:
+                    raise sx.SXBound()
+            E.check(got == exp, 'a %s printer whose run is interleaved with a run of another printer object over the same tree yields a different fragment sequence' % cfg)
+            for t, s0 in zip(trees, snaps):
+                E.check(snapshot(t) == s0, 'unparsing modified the tree')
+            return
         got = frs(P, A)
         exp = frs(mk(cfg), A)
         E.check(got == exp, 'a reused %s printer yields a different fragment sequence than a fresh one (after %s)' % (cfg, mode))
@@ -143,6 +166,22 @@ def concrete_history(cfg, xi, ai, mode, ks):
     trees = [parse(t) for t in texts]
     snaps = [snapshot(t) for t in trees]
     P = mk(cfg)
+    if mode == 'interleave':
+        A = trees[ai]
+        exp = frs(mk(cfg), A)
+        Q = mk(OTHER.get(cfg, 'minobf'))
+        got = []
+        for f in P(A):
+            if len(got) == ks[0]:
+                frs(Q, A)
+                frs(Q, trees[xi])
+            got.append(tuple(f))
+        if got != exp:
+            return '%s printer suspended after %d fragments while another printer prints the same tree, then resumed: %r... vs uninterrupted %r...' % (
+                cfg, ks[0], ''.join(f[0] for f in got)[:80], ''.join(f[0] for f in exp)[:80])
+        if any(snapshot(t) != s for t, s in zip(trees, snaps)):
+            return 'unparsing modified a tree'
+        return None
     for step, k in enumerate(ks):
         X = trees[(xi + step) % len(trees)]
         if mode == 'abandon':
@@ -188,6 +227,15 @@ def shortcuts():
         for kw in ({'obfuscate': True}, {'drop_semi': True}, {'obfuscate': True, 'obfuscate_globals': True}):
             if es5.minify_print(t, **kw) != minify_print(parse(t), **kw):
                 bad.append('es5.minify_print(text, %r) differs' % kw)
+        # options passed positionally (the documented signatures: pretty_print(ast, indent_str), minify_print(ast, obfuscate, obfuscate_globals, shadow_funcname, drop_semi))
+        for a in ((True,), (True, True), (True, True, True), (False, False, False, True), (True, False, False, True)):
+            if es5.minify_print(t, *a) != minify_print(parse(t), *a):
+                bad.append('es5.minify_print(text, *%r) differs from minify_print(parse(text), *%r)' % (a, a))
+        for a in (('\t',), ('',), ('    ',)):
+            if es5.pretty_print(t, *a) != pretty_print(parse(t), *a):
+                bad.append('es5.pretty_print(text, %r) differs from pretty_print(parse(text), %r)' % (a[0], a[0]))
+            if es5.pretty_print(t, indent_str=a[0]) != pretty_print(parse(t), indent_str=a[0]):
+                bad.append('es5.pretty_print(text, indent_str=%r) differs' % a[0])
         for n in _walk(tree):
             if str(n) != pretty_print(n):
                 bad.append('str(%s) != pretty_print' % type(n).__name__)
@@ -222,6 +270,9 @@ def main():
         if th:
             for xi in range(nt - 1):
                 jobs.append((cfg, xi, 0, 'abandon', 2))
+        # interleaved generators: on the small trees (every suspension point), both flavours of other printer
+        for ai in (range(nt - 1) if th else (0, 1)):
+            jobs.append((cfg, (ai + 1) % (nt - 1), ai, 'interleave', 1))
     res = common.pmap(_job, jobs)
     from .. import replay as rp
     tot = dict(paths=0, reached=0, z3_checks=0, assertions=0, solver_s=0.0)
@@ -260,7 +311,7 @@ def main():
         'rule': 'one evaluation = one feasible abandon index (or raise) of one history shape', 'samples': samples,
         'queries': tot['z3_checks'], 'solver_s': round(tot['solver_s'], 1), 'assertions_discharged': tot['assertions'],
         'bounds': {'histories': 'length 2 (quick) / 3 (thorough), 5 printer configurations, %d trees incl. a 300-name scope' % nt,
-                   'outside': 'longer histories; interleaved (not abandoned) generators; other trees'},
+                   'outside': 'longer histories; more than one suspension per run; other trees'},
     })
     run.assumptions += ['fragment tuples compare by value; a fresh printer of the same configuration is the reference']
     return run.finish()
